@@ -30,6 +30,10 @@ def shards(tier, seed):
     per = 200 if tier == 'quick' else 12000
     budget = 45 if tier == 'quick' else 540
     _out = [{'kind': 'random', 'count': per, 'budget_s': budget} for _ in range(16)]
+    ns = list(range(1, 72)) + [95, 96, 97, 127, 128, 129, 255, 256, 257]
+    for part in range(2):
+        sub = ns[part::2]
+        _out.append({'kind': 'wide_out', 'ns': sub, 'count': len(sub) * (2 if tier == 'quick' else 12), 'budget_s': budget})
     _out.append({'kind': 'deep', 'count': 2 if tier == 'quick' else 20, 'budget_s': budget,
                  'depths': [1100, 1400] if tier == 'quick' else netgen.DEEP_THOROUGH})
     if tier == 'thorough':
@@ -236,7 +240,38 @@ def check_case(case, ctx):
              sample={'left': case['left'], 'right': case['right'], 'variant': case['variant']} if hl != hr else None)
 
 
+def gen_wide_outputs(rng, spec):
+    """Many outputs; the two circuits are equal or differ in exactly one output position (first / middle / last ...),
+    so every comparator bit matters on its own.  Output counts are swept contiguously."""
+    ns = spec['ns']
+    n_out = ns[spec.get('index', 0) % len(ns)]
+    n_in = rng.randint(2, 3)
+    ins = ['x%d' % i for i in range(n_in)]
+    g = {i: ('INPUT', ()) for i in ins}
+    outs = []
+    for k in range(n_out):
+        t = rng.choice(['AND', 'OR', 'XOR', 'NAND', 'NOR', 'NXOR', 'GT', 'LT'])
+        g['o%d' % k] = (t, (rng.choice(ins), rng.choice(ins)))
+        outs.append('o%d' % k)
+    left = refsem.Net(list(ins), list(outs), dict(g))
+    mode = rng.choice(['same', 'one', 'one', 'one', 'two'])
+    g2 = dict(g)
+    outs2 = list(outs)
+    if mode != 'same':
+        pos = {rng.choice([0, n_out // 2, max(0, n_out - 2), n_out - 1, n_out - 1, rng.randrange(n_out)])}
+        if mode == 'two':
+            pos.add(rng.randrange(n_out))
+        for p_ in pos:
+            g2['neg%d' % p_] = ('NOT', (outs[p_],))
+            outs2[p_] = 'neg%d' % p_
+    right = refsem.Net(list(ins), outs2, g2)
+    return {'kind': 'random', 'variant': 'wide_outputs:' + mode, 'left': netgen.describe(left), 'right': netgen.describe(right),
+            'rseed': rng.getrandbits(32), 'names': None, 'interfere': False}
+
+
 def gen_case(rng, spec):
+    if spec.get('kind') == 'wide_out':
+        return gen_wide_outputs(rng, spec)
     n_out = rng.choice([1, 1, 2, 3, 4])
     net = netgen.rand_net(rng, shape=rng.choice(netgen.SHAPES), max_in=5, min_in=1, max_g=9, max_arity=3, n_out=n_out,
                           const_operands=False)
@@ -283,7 +318,7 @@ def run_shard(spec, ctx):
         if ctx.out_of_time():
             ctx.count('stopped_on_budget')
             break
-        check_case(gen_case(ctx.rng, spec), ctx)
+        check_case(gen_case(ctx.rng, dict(spec, index=i)), ctx)
 
 
 def replay(case, ctx):
